@@ -287,7 +287,22 @@ pub fn run_cases(args: &Args, mut res: SubResult, total: usize, timeout: Duratio
     res
 }
 
+/// CPU time (user + system, children included) consumed so far by process `pid`, from /proc.
+pub fn proc_cpu(pid: u32) -> Option<Duration> {
+    let stat = std::fs::read_to_string(format!("/proc/{pid}/stat")).ok()?;
+    let rest = stat.rsplit(')').next()?;
+    let f: Vec<&str> = rest.split_whitespace().collect();
+    // after the command name: state(0) ppid(1) ... utime(11) stime(12) cutime(13) cstime(14)
+    let ticks: u64 = [11, 12, 13, 14].iter().filter_map(|i| f.get(*i).and_then(|x| x.parse::<u64>().ok())).sum();
+    let hz = unsafe { libc::sysconf(libc::_SC_CLK_TCK) }.max(1) as u64;
+    Some(Duration::from_millis(ticks * 1000 / hz))
+}
+
 /// Run a closure in a child process (re-invocation with `--child <tag>`); used for crash shapes.
+/// `timeout` is a budget of CPU time: a child that has not finished after consuming that much is
+/// reported as hanging.  Wall-clock time alone would call a starved child (a loaded machine) hung;
+/// it only ends the wait after eight times the budget.  (A child that blocks without using the CPU
+/// is ended by its own scheduler's watchdog long before that.)
 pub fn child_status(args: &[String], timeout: Duration) -> Result<std::process::ExitStatus, String> {
     let exe = std::env::current_exe().unwrap();
     let mut child = std::process::Command::new(exe).args(args).stdout(std::process::Stdio::null()).stderr(std::process::Stdio::null()).spawn().map_err(|e| e.to_string())?;
@@ -297,9 +312,12 @@ pub fn child_status(args: &[String], timeout: Duration) -> Result<std::process::
             Ok(Some(s)) => return Ok(s),
             Ok(None) => {
                 if t0.elapsed() > timeout {
-                    let _ = child.kill();
-                    let _ = child.wait();
-                    return Err("timeout".into());
+                    let cpu = proc_cpu(child.id()).unwrap_or(t0.elapsed());
+                    if cpu > timeout || t0.elapsed() > timeout * 8 {
+                        let _ = child.kill();
+                        let _ = child.wait();
+                        return Err("timeout".into());
+                    }
                 }
                 std::thread::sleep(Duration::from_millis(5));
             }
